@@ -242,6 +242,9 @@ func Generate(r *gen.R, p Params) *H {
 		if first < 0 {
 			first = 0
 		}
+		if ch.Type == osm.TypeWay && r.Chance(0.35) {
+			ch.Closed = true
+		}
 		nv := r.Range(1, p.MaxVers)
 		if p.Mode == "burst" && r.Chance(0.6) {
 			nv = r.Range(p.MaxVers/2+1, p.MaxVers)
@@ -352,7 +355,16 @@ func Generate(r *gen.R, p Params) *H {
 				v.Lon = -float64(c+1) - float64(ver)/1000
 			}
 			if ch.Type == osm.TypeWay {
-				v.Rev = r.Chance(0.3)
+				// direction kept / reversed / nodes changed between successive versions
+				v.Rev = r.Chance(0.35)
+				switch r.Intn(10) {
+				case 0, 1:
+					v.Alt = 1
+				case 2:
+					v.Alt = 2
+				case 3:
+					v.Alt = 3
+				}
 			}
 			ch.Vers = append(ch.Vers, v)
 			ver++
